@@ -21,6 +21,7 @@ struct Point { int running; bool running_enabled; std::vector<int> enabled; int 
 struct T { int id; std::thread th; sem_t sem; bool done = false; pthread_mutex_t* want = nullptr; std::function<bool()> pred; std::string name; };
 struct World {
   std::vector<T*> ts; std::map<pthread_mutex_t*, int> owner; int cur = -1;
+  struct RW { int writer = -1; int readers = 0; }; std::map<pthread_rwlock_t*, RW> rw;   // reader/writer locks (std::shared_mutex)
   std::vector<int> prefix; std::vector<Point> points; bool deadlock = false; bool horizon = false; bool diverged = false;
   sem_t main_sem; bool active = false; size_t max_points = 20000; std::string stuck;
 };
@@ -67,6 +68,20 @@ inline void mlock(pthread_mutex_t* m) {
 }
 inline bool mtrylock(pthread_mutex_t* m) { reschedule("trylock", true); if (W->owner.count(m)) return false; W->owner[m] = self->id; return true; }
 inline void munlock(pthread_mutex_t* m) { W->owner.erase(m); reschedule("unlock", true); }
+// reader/writer locks: any number of readers or one writer; no fairness assumed (a waiting writer does not block new readers)
+inline void rw_rdlock(pthread_rwlock_t* l) {
+  reschedule("rdlock", true);
+  while (W->active && W->rw[l].writer >= 0) { self->pred = [l] { return W->rw[l].writer < 0; }; reschedule("blocked-rd", true); self->pred = nullptr; }
+  W->rw[l].readers++;
+}
+inline void rw_wrlock(pthread_rwlock_t* l) {
+  reschedule("wrlock", true);
+  while (W->active && (W->rw[l].writer >= 0 || W->rw[l].readers > 0)) { self->pred = [l] { return W->rw[l].writer < 0 && W->rw[l].readers == 0; }; reschedule("blocked-wr", true); self->pred = nullptr; }
+  W->rw[l].writer = self->id;
+}
+inline bool rw_tryrdlock(pthread_rwlock_t* l) { reschedule("tryrdlock", true); if (W->rw[l].writer >= 0) return false; W->rw[l].readers++; return true; }
+inline bool rw_trywrlock(pthread_rwlock_t* l) { reschedule("trywrlock", true); if (W->rw[l].writer >= 0 || W->rw[l].readers > 0) return false; W->rw[l].writer = self->id; return true; }
+inline void rw_unlock(pthread_rwlock_t* l) { auto& st = W->rw[l]; if (st.writer == self->id) st.writer = -1; else if (st.readers > 0) st.readers--; reschedule("rwunlock", true); }
 inline int spawn(const std::string& name, std::function<void()> body) {
   T* t = new T; t->id = (int)W->ts.size(); t->name = name; sem_init(&t->sem, 0, 0); W->ts.push_back(t);
   t->th = std::thread([t, body] { self = t; sem_wait(&t->sem); if (W && W->active) body(); t->done = true; if (W && W->active) reschedule("exit", false); });
